@@ -446,6 +446,23 @@ func parserFaults(c *simkit.Choices, x *simkit.Ctx) *simkit.Violation {
 	}
 	doc := common.GenDoc(c, f, o, nvals)
 	data := doc.Bytes
+	broken := false
+	if c.N(4) == 0 && len(data) > 1 {
+		// an input the parser will refuse in the end (cut short, or corrupted):
+		// every event it delivers before that still obeys the rule - also the
+		// ones it delivers while working out that the input is incomplete
+		broken = true
+		if c.Bool() {
+			data = data[:1+c.N(len(data)-1)]
+		} else {
+			data, _ = common.Corrupt(c, doc, 1, x.Stats)
+		}
+		if f == model.UBJSON && common.HasPayloadlessTyped(data) {
+			// (a corrupted count on a payload-less typed container is the known
+			// finding of C03, a time bomb - not an error-propagation question)
+			data, broken = doc.Bytes, false
+		}
+	}
 	sc := &Scenario{Side: "visitor", Target: string(f) + "-parser", Doc: hex.EncodeToString(data)}
 	sc.Entry = parserEntries[c.N(len(parserEntries))]
 	switch sc.Entry {
@@ -562,9 +579,15 @@ func parserFaults(c *simkit.Choices, x *simkit.Ctx) *simkit.Violation {
 	dry.NoRecord = true
 	var dryErr error
 	readFailsAt = 0
-	if pi := simkit.Guard(func() { dryErr = run(dry) }); pi != nil || dryErr != nil {
+	if pi := simkit.Guard(func() { dryErr = run(dry) }); pi != nil || (dryErr != nil && !broken) {
 		st.Probe("parser-dry-run-failed")
 		return nil
+	}
+	if broken {
+		if dry.Count == 0 {
+			return nil
+		}
+		st.Fault("input-refused-after-some-events")
 	}
 	readFailsAt = sc.ReadFailsAt
 	if readFailsAt > 0 {
